@@ -73,6 +73,13 @@ class ModelIter:
         raise StopIteration
 
 
+def _no_child_closes(spec):
+    # a tee whose children have all been closed closes its source - here the handle; the stdlib twin has no such
+    # notion, so in this check tee children are only advanced (closing children is C04 / C09 / C01 business)
+    if spec.tool == "tee":
+        spec.p["order"] = tuple(c if c >= 0 else -1 - c for c in spec.p["order"])
+
+
 def gen(ch):
     sc = type("Scn", (), {})()
     cfg = draw_cfg(ch, async_only=True, odd_items=False)
@@ -106,6 +113,7 @@ def gen(ch):
                 spec.p["n"] = 1
             if spec.p.get("alias"):
                 spec.p["alias"] = None
+            _no_child_closes(spec)
             ops.append((15, spec, ch.between(1, 3), ch.draw(len(spec.srcs))))
             continue
         if kind == 13:
@@ -127,6 +135,7 @@ def gen(ch):
                     spec.srcs.pop()
                 if spec.p.get("alias"):
                     spec.p["alias"] = None
+                _no_child_closes(spec)
                 ops.append((5, spec, ch.draw(5), ch.draw(3), ch.draw(len(spec.srcs))))  # tool spec, j, then, handle position
             else:
                 name = AGG_NAMES[ch.draw(len(AGG_NAMES))]
